@@ -364,7 +364,9 @@ func ruleBatchElapsed(c *Ctx, r *R) {
 			return false
 		}
 		cal := call.Call.StaticCallee()
-		return cal != nil && fname(cal) == "Since" && cal.Pkg != nil && cal.Pkg.Pkg.Path() == "time" && atEverySite(c, call.Call.Args[0], 0, func(a ssa.Value) bool { return strings.HasSuffix(path(a), "batchStart") || onlyTimeNow(a, map[ssa.Value]bool{}) })
+		return cal != nil && fname(cal) == "Since" && cal.Pkg != nil && cal.Pkg.Pkg.Path() == "time" && atEverySite(c, call.Call.Args[0], 0, func(a ssa.Value) bool {
+			return strings.HasSuffix(path(a), "batchStart") || onlyTimeNow(a, map[ssa.Value]bool{})
+		})
 	}
 	isMaxWait := func(v ssa.Value) bool {
 		return atEverySite(c, v, 0, func(a ssa.Value) bool { return strings.HasSuffix(path(a), "maxWait") })
